@@ -4,12 +4,9 @@ From Coq Require Import String.
 From Coq Require Import List ZArith NArith Bool Lia.
 Import ListNotations.
 Require Import PyLib Str G_juniper JunModel JunProofs G_fn_jun RefJun.
+Require Export RefStr.
 Local Open Scope N_scope.
 
-Lemma zs_inj a b : map Z.of_N a = map Z.of_N b -> a = b.
-Proof. revert b; induction a as [|x a IH]; intros [|y b] E; cbn in *; try discriminate; [reflexivity|]. injection E as E1 E2. apply N2Z.inj in E1. subst. f_equal. auto. Qed.
-
-(* the generated per-character encoder does not use its dispatcher / fuel parameters *)
 Lemma gap_encode_params pc fuel a b c : gen__gap_encode pc fuel a b c = gen__gap_encode nocall 1%nat a b c.
 Proof. reflexivity. Qed.
 Lemma fixedc_params pc fuel a : gen__fixedc pc fuel a = gen__fixedc nocall 1%nat a.
@@ -34,10 +31,6 @@ Lemma num_alpha_is : g_NUM_ALPHA = VList (map vch NUM_ALPHA). Proof. reflexivity
 Lemma encoding_is : g_ENCODING = VList (map vrow ENCODING). Proof. reflexivity. Qed.
 Lemma magic_is_g : g_MAGIC = vstr MAGIC. Proof. reflexivity. Qed.
 
-Lemma veq_vch a b : veq (vch a) (vch b) = N.eqb a b.
-Proof. unfold vch. cbn [veq]. destruct (list_eq_dec Z.eq_dec [Z.of_N a] [Z.of_N b]) as [E|E].
-  - injection E as E. apply N2Z.inj in E. subst. symmetry. apply N.eqb_refl.
-  - destruct (N.eqb_spec a b) as [->|]; [contradiction|reflexivity]. Qed.
 Lemma dict_get_extra s : dict_get (map (fun kv => (vch (fst kv), VInt (Z.of_N (snd kv)))) EXTRA) (vch s) = option_map (fun e => VInt (Z.of_N e)) (assoc EXTRA s).
 Proof. induction EXTRA as [|[k v] l IH]; cbn [map dict_get assoc fst snd]; [reflexivity|]. rewrite veq_vch. destruct (N.eqb s k); [reflexivity|exact IH]. Qed.
 Lemma py_in_extra s : py_in (vch s) g_EXTRA = Normal (VBool (match assoc EXTRA s with Some _ => true | None => false end)).
@@ -48,35 +41,6 @@ Proof. intro H. rewrite extra_is. unfold py_getitem, vch. fold (vch s). rewrite 
 Lemma gen_fixedc_small e : e <= 3 -> gen__fixedc nocall 1%nat (VInt (Z.of_N e)) = Normal (vstr (fixedc e)).
 Proof. intro H. assert (E : e = 0 \/ e = 1 \/ e = 2 \/ e = 3) by lia. destruct E as [E|[E|[E|E]]]; subst e; reflexivity. Qed.
 
-Lemma py_getitem_list_nat {X} (f : X -> pyval) (l : list X) (k : nat) x : nth_error l k = Some x -> py_getitem (VList (map f l)) (VInt (Z.of_nat k)) = Normal (f x).
-Proof.
-  intro H. unfold py_getitem, norm_idx. rewrite map_length. cbv zeta.
-  assert (Hk : (k < length l)%nat) by (apply nth_error_Some; congruence).
-  assert (E0 : (Z.of_nat k <? 0)%Z = false) by (apply Z.ltb_ge; lia). rewrite !E0.
-  assert (E1 : (Z.of_nat (length l) <=? Z.of_nat k)%Z = false) by (apply Z.leb_gt; lia). rewrite E1.
-  cbn [orb]. rewrite Nat2Z.id. rewrite nth_error_map, H. reflexivity.
-Qed.
-
-Lemma py_add_vstr a b : py_add (vstr a) (vstr b) = Normal (vstr (a ++ b)).
-Proof. unfold vstr. cbn [py_add]. now rewrite map_app. Qed.
-Lemma vch_is_vstr c : vch c = vstr [c]. Proof. reflexivity. Qed.
-Lemma getitem_last (l : str) : l <> [] -> py_getitem (vstr l) (VInt (-1)) = Normal (vch (last l 0)).
-Proof.
-  intro Hne. unfold py_getitem, vstr, norm_idx. rewrite map_length. cbv zeta.
-  change (-1 <? 0)%Z with true. cbv iota.
-  assert (Hl : (0 < length l)%nat) by (destruct l; [contradiction|cbn; lia]).
-  replace (-1 + Z.of_nat (length l) <? 0)%Z with false by (symmetry; apply Z.ltb_ge; lia).
-  replace (Z.of_nat (length l) <=? -1 + Z.of_nat (length l))%Z with false by (symmetry; apply Z.leb_gt; lia). cbn [orb].
-  replace (Z.to_nat (-1 + Z.of_nat (length l))) with (length l - 1)%nat by lia.
-  rewrite nth_error_map. 
-  assert (E : nth_error l (length l - 1) = Some (last l 0)).
-  { clear Hl. induction l as [|x l IH]; [contradiction|]. destruct l as [|y l]; [reflexivity|].
-    replace (length (x :: y :: l) - 1)%nat with (S (length (y :: l) - 1)) by (cbn; lia). cbn [nth_error]. rewrite IH by discriminate. reflexivity. }
-  rewrite E. reflexivity.
-Qed.
-Lemma py_format_str_vstr s : py_format_str (vstr s) = Normal (vstr s). Proof. reflexivity. Qed.
-
-(* the loop: py_for over the characters of the plaintext against enc_loop *)
 Lemma enc_loop_refines : forall (plain : str) (pos : nat) (prev : N) (crypt : str) (a1 a2 a3 a7 a8 : pyval) body,
   Forall (fun c => c < 256) plain -> inA prev = true ->
   (forall c pos prev crypt a7 a8, c < 256 -> inA prev = true ->
@@ -167,4 +131,5 @@ Proof.
     cbn [bind py_add]. replace (Z.of_nat pos + 1)%Z with (Z.of_nat (S pos)) by lia. reflexivity.
   - exists c'. split; [exact El|]. change (VInt 0) with (VInt (Z.of_nat 0)). rewrite Ef. reflexivity.
 Qed.
+
 
